@@ -4,7 +4,7 @@ from __future__ import annotations
 import ast
 
 from engine.defuse import reaching_defs, value_sources
-from engine.flow import (dominating_guards, falls_through, must_pass, path_avoiding,
+from engine.flow import (def_types, dominating_guards, falls_through, must_pass, path_avoiding,
                          reachable_from_entry, returns_of, same_name_value)
 from engine.model import AnalysisError
 from engine.types import ANY, FnTypes
@@ -174,6 +174,11 @@ def check_gateway(ctx):
                     continue
                 # (iii) configuration store
                 vt = ft.type_of(val, env)
+                if (vt == ANY or not vt or not all(isinstance(a, str) and a in model.classes and model.classes[a].is_subclass_of(Config) for a in vt)) \
+                        and isinstance(val, ast.Name):
+                    vt2 = def_types(an, fn, val, node)       # the live definitions only (flag-selected stores)
+                    if vt2 != ANY:
+                        vt = vt2
                 if vt != ANY and vt and all(isinstance(a, str) and a in model.classes
                                             and model.classes[a].is_subclass_of(Config) for a in vt):
                     ctx.ob("gateway.config-store", fn, construct, True,
@@ -257,10 +262,16 @@ def check_load_tree(ctx):
 
         def env_guard_edge(a, b, lbl):
             if a.kind == "test" and lbl is True:
-                for sub in ast.walk(a.ast):
-                    for nn in g.nodes_for(sub):
-                        if any(e[0] == "ENV_READ" for e in calls.direct(fn, nn)):
-                            return False
+                exprs = [a.ast]
+                # a local flag computed from the variable (`env_locked = bool(... and os.environ.get(name))`)
+                for x in ast.walk(a.ast):
+                    if isinstance(x, ast.Name):
+                        exprs += [pl for k, pl in value_sources(fn, x, a) if k == "expr" and isinstance(pl, ast.AST)]
+                for e_ in exprs:
+                    for sub in ast.walk(e_):
+                        for nn in g.nodes_for(sub):
+                            if any(ev[0] == "ENV_READ" for ev in calls.direct(fn, nn)):
+                                return False
             return True
 
         p = path_avoiding(an, fn, binds[0], lambda n: n is head, is_gateway, edge_filter=env_guard_edge,
